@@ -246,13 +246,24 @@ func ChildMain(argJSON string) int {
 		writeCk(a.Only+1, true)
 		return 0
 	}
-	for i := a.From; i < n; i++ {
-		if i%a.NShards != a.Shard || skip[i] {
+	reversed := p.ReplicaOrders && a.Replica%2 == 1
+	// a.From counts positions in this replica's order (position pos runs case index idx)
+	for pos := a.From; pos < n; pos++ {
+		i := pos
+		if reversed {
+			i = n - 1 - pos
+		}
+		// reversed replicas also shard differently, so shard-mates differ between replicas
+		sh := i % a.NShards
+		if reversed {
+			sh = (i / 3) % a.NShards
+		}
+		if sh != a.Shard || skip[i] {
 			continue
 		}
 		runIdx(i)
 		if time.Since(lastCk) > 1500*time.Millisecond {
-			writeCk(i+1, false)
+			writeCk(pos+1, false)
 			lastCk = time.Now()
 		}
 	}
